@@ -166,3 +166,29 @@ def raise_exc(kind, args):
     if kind == 'SystemExit':
         raise SystemExit(3)
     raise RuntimeError('unknown kind')
+
+
+def echo_and_mutate(*args, **kwargs):
+    """returns a deep snapshot of what it received, then mutates every mutable argument (so stale defaults would show)"""
+    import copy
+    snap = (copy.deepcopy(args), copy.deepcopy(kwargs))
+    for a in list(args) + list(kwargs.values()):
+        if isinstance(a, list):
+            a.append('MUT')
+        elif isinstance(a, dict):
+            a['MUT'] = True
+    return snap
+
+
+def ret_spec(spec, *args, **kwargs):
+    if spec == 'none':
+        return None
+    if spec == 'false':
+        return False
+    if spec == 'zero':
+        return 0
+    if spec == 'empty':
+        return []
+    if spec == 'big':
+        return make_bytes(1 << 20)
+    return spec
